@@ -902,6 +902,7 @@ pub fn run(args: &Args, out: &mut Out) {
         hist.add(&format!("calls-between-cycles={}", shape.cross_calls.min(3)));
         hist.add(&format!("globals-initialised-by-a-call={}", shape.init_calls));
         hist.add(&format!("cycles-in-namespaces={}", shape.namespaces.min(3)));
+        hist.add(if shape.deep_chain == 0 { "deep-helper-chain=none" } else if shape.deep_chain < 16 { "deep-helper-chain=9-15" } else { "deep-helper-chain=16-24" });
         for t in ALL_TARGETS {
             lines.push(format!("C07.repeat\t{}\tall\tcycle:{}", t.name(), seed));
         }
